@@ -305,6 +305,7 @@ func buildField(ww *conversionVisitor, node sourcewalk.FieldNode) (*descriptorpb
 				},
 			}
 			proto.SetExtension(desc.Options, validate.E_Field, rules)
+			ww.file.ensureImport(bufValidateImport)
 		}
 
 		if st.Bool.ListRules != nil {
@@ -332,6 +333,7 @@ func buildField(ww *conversionVisitor, node sourcewalk.FieldNode) (*descriptorpb
 				},
 			}
 			proto.SetExtension(desc.Options, validate.E_Field, rules)
+			ww.file.ensureImport(bufValidateImport)
 		}
 
 		return desc, nil
@@ -593,6 +595,7 @@ func buildField(ww *conversionVisitor, node sourcewalk.FieldNode) (*descriptorpb
 			}
 
 			proto.SetExtension(desc.Options, validate.E_Field, rules)
+			ww.file.ensureImport(bufValidateImport)
 		}
 
 		if st.Integer.ListRules != nil {
@@ -742,6 +745,7 @@ func buildField(ww *conversionVisitor, node sourcewalk.FieldNode) (*descriptorpb
 				},
 			}
 			proto.SetExtension(desc.Options, validate.E_Field, rules)
+			ww.file.ensureImport(bufValidateImport)
 		}
 
 		if st.String_.ListRules != nil {
@@ -774,6 +778,7 @@ func buildField(ww *conversionVisitor, node sourcewalk.FieldNode) (*descriptorpb
 				},
 			}
 			proto.SetExtension(desc.Options, validate.E_Field, rules)
+			ww.file.ensureImport(bufValidateImport)
 		}
 
 		if st.Timestamp.ListRules != nil {
